@@ -3,6 +3,7 @@ package c07
 import (
 	"fmt"
 	"os"
+	"strings"
 	"testing"
 
 	"verif/mc/core"
@@ -99,6 +100,32 @@ func TestDevReentrancyUnits(t *testing.T) {
 					v += "+EVAL"
 				}
 				line += fmt.Sprintf(" %s%v:%s", s.kind, s.hasB, v)
+			}
+			fmt.Println(line)
+		}
+	}
+}
+
+// C07_DEV=stunits: one line per (definer, body) of the stateful space, one column per placement (k=3, arg x)
+func TestDevStatefulUnits(t *testing.T) {
+	if os.Getenv("C07_DEV") != "stunits" {
+		t.Skip()
+	}
+	for _, definer := range definers {
+		for _, b := range stBodies {
+			line := fmt.Sprintf("%-9s %-26s", definer, b.id)
+			for _, p := range stPlaces {
+				rc := runFresh(stProgram(definer, b, p, 3, "(m x)"))
+				re := runFresh(stProgram(definer, b, p, 3, "(eval (macroexpand '(m x)))"))
+				rm := runFresh(stProgram(definer, b, p, 3, strings.ReplaceAll(b.inline, "{A}", "x")))
+				v := "ok"
+				if rc.key() != rm.key() {
+					v = "MODEL"
+				}
+				if rc.key() != re.key() {
+					v += "+EVAL"
+				}
+				line += " " + v
 			}
 			fmt.Println(line)
 		}
